@@ -1581,7 +1581,7 @@ impl<'a> World<'a> {
         // C11: a same-layout update after the fork is an event like any other and goes to
         // the reference context too; any other update ends the lock-step pair (a new
         // reference context is forked by the next Fork op)
-        let keep_twin = self.scenario == Scenario::Reconfigure
+        let keep_twin = matches!(self.scenario, Scenario::Reconfigure | Scenario::SessionReset)
             && old.layout == cfg.layout
             && matches!(self.slots[h as usize].as_ref().unwrap().twin, Some((_, TwinKind::Equal)));
         let r = {
